@@ -9,7 +9,8 @@ suite = sys.argv[1]
 seed = int(sys.argv[2]) if len(sys.argv) > 2 else 1
 tier = sys.argv[3] if len(sys.argv) > 3 else "quick"
 build = sys.argv[4] if len(sys.argv) > 4 else "debug"
-rc, out, dt, binp = vcheck.build_harness(ROOT, "e1", release=(build == "release"))
+engine = os.environ.get("ENGINE", "e1")
+rc, out, dt, binp = vcheck.build_harness(ROOT, engine, release=(build == "release"))
 if rc:
     print(out[-3000:]); sys.exit(1)
 t = time.time()
